@@ -100,6 +100,32 @@ def run(res, rng, tier, model_ok, replay=None):
                 cases.append({"line": "vcd %s %s %s %s" % (mode, sarg, hdr.hex(), gen.hexs(body)), "expect": exp,
                               "key": ("tiny", body, mode), "klass": "tiny-body"})
             groups.append((start, len(body)))
+        # every variable is dumped again, unchanged, in most time steps: wherever a parser thread's chunk (or a block of the
+        # store) begins, its first change of a real / string / vector repeats the value before it (seeded change C14-m11)
+        for k in range(6 if tier == "quick" else 60):
+            sigs = [gen.Sig("b", 1), gen.Sig("r"), gen.Sig("s"), gen.Sig("b", 8)]
+            nsteps = rng.randint(8, 40)
+            steps = []
+            for j in range(nsteps):
+                ch = [(0, "01"[j % 2])]
+                if rng.random() < 0.9:
+                    ch.append((1, "%d.25" % (j // 3)))
+                if rng.random() < 0.9:
+                    ch.append((2, "w%d" % (j // 4)))
+                if rng.random() < 0.9:
+                    ch.append((3, format((j // 5) % 256, "08b")))
+                steps.append((10 + j * 3, ch))
+            idents, kind, idx, nuniq = gen.assign_ids(rng, len(sigs), "dense")
+            hdr = gen.header_text(rng, sigs, idents, plain=True)
+            body = gen.body_text(rng, sigs, idents, steps, False, "plain")
+            table, out = gen.expected_obs(sigs, steps, False)
+            exp = gen.obs_string(table, out, idx)
+            sarg = gen.sigs_arg(sigs, kind, idx, nuniq, idents)
+            start = len(cases)
+            for mode in MODES + ["mt:3:48", "mt:5:100"]:
+                cases.append({"line": "vcd %s %s %s %s" % (mode, sarg, hdr.hex(), body.hex()), "expect": exp,
+                              "key": ("redump", k, mode), "klass": "unchanged-values-dumped-again"})
+            groups.append((start, len(body)))
         # bodies larger than the 8 KiB BufReader buffer, at every alignment of the refill positions,
         # and a first header command longer than 4 KiB
         for k in range(8 if tier == "quick" else 24):
